@@ -234,6 +234,9 @@ func runC11(r *Report, tier string) {
 		o4.check(has && ks, "calls "+shortFn(callee)+" which holds a key site", "SignMessage."+name+" does not call Signature."+name+" or that method has no key site")
 	}
 	checkSignMessageEncoderElems(r, "R11.3")
+	// every use of the (shared) protected bytes sees them as they were
+	r.rule("R01.5", "(shared with C01) the ToBeSigned builders write no memory that existed before the call.")
+	checkBuilderPurity(r, "R01.5")
 	// decoder
 	checkSignMessageDecoderElems(r, "R11.3")
 }
